@@ -123,11 +123,15 @@ Proof.
   destruct (IH t) as [E|E]; [right; left; auto | right; right; auto].
 Qed.
 
+(* T fact: both sort.Search predicates are `> minTs` *)
+Lemma slice_strict : slice_keeps_equal = false.
+Proof. reflexivity. Qed.
+
 Lemma drop_le_filter : forall (l : samples) m, incr (map fst l) ->
   drop_le l m = filter (fun p => m <? fst p) l.
 Proof.
   induction l as [|[t v] l IH]; intros m H; [reflexivity|]. cbn in H. destruct H as [H1 H2].
-  cbn [drop_le filter fst]. destruct (t <=? m) eqn:E.
+  cbn [drop_le filter fst]. rewrite slice_strict. cbv iota. destruct (t <=? m) eqn:E.
   - assert (E' : (m <? t) = false) by lia. rewrite E'. auto.
   - assert (E' : (m <? t) = true) by lia. rewrite E'. f_equal. symmetry. apply filter_all.
     intros [t' v'] Hp. cbn. assert (t < t') by (apply H1; apply in_map_iff; exists (t', v'); auto). lia.
